@@ -480,6 +480,13 @@ class Generator:
             return ["sc", dt.name, _val(rng, dt)], "sc"
         if r < 0.6:
             odt = rng.choice([dt.name, rng.choice(self.P["dtypes"])])
+            if np.dtype(odt).kind == "f" and rng.random() < 0.4:
+                # generic reals of mixed magnitude (not exactly representable sums of differences): a column is
+                # broadcast along the rows, which must be a pure copy of each value
+                pool = [0.1, 2.5, 1e16, 1.0, -3.3, 1e-3, 7.0 / 3.0, -1e-9, 12345.678]
+                if rng.random() < 0.3:
+                    pool += ["inf", "nan", "-inf"]
+                return ["col", odt, [rng.choice(pool) for _ in range(n)]], "col"
             return ["col", odt, [_val(rng, odt) for _ in range(n)]], "col"
         if r < 0.95:
             w = self.partner(v)
@@ -788,6 +795,9 @@ class Generator:
             value = ["list", [_val(rng, dt) for _ in range(sel_size)]]
         elif k == "col":
             value = ["col", dt.name, [_val(rng, dt) for _ in range(len(sel_lens))]]
+            if dt.kind == "f" and rng.random() < 0.4:
+                value = ["col", dt.name, [rng.choice([0.1, 2.5, 1e16, 1.0, -3.3, 1e-3, 7.0 / 3.0, "inf", "nan"])
+                                          for _ in range(len(sel_lens))]]
         elif k == "var":
             # a matching ragged value: the same index applied to an array of t's shape (a pending
             # selection in the lazy schedule)
